@@ -51,27 +51,49 @@ def zip3 {α β γ : Type} : List α → List β → List γ → List (α × β 
   | a :: as, b :: bs, c :: cs => (a, b, c) :: zip3 as bs cs
   | _, _, _ => []
 
-/-- Property clauses of one velocity update on the implementation's output. -/
-def velHolds (w c1 c2 vmax : Float) (sw : Swarm Float) (g : Part Float) (draws : List (List (Float × Float)))
+/-- Property clauses of one velocity update on the implementation's output: every coordinate within
+`[−v_max, v_max]`, moved by exactly the new velocity (one rounding), and — wherever the result does
+not depend on the draws (both attraction terms vanish) — the STORED inertia weight scales the old
+velocity: `v' = clamp(w · v)`. Which draw feeds which term and how the sum is associated is not
+part of the property (that is compared in `agree`, tolerantly). -/
+def velHolds (w c1 c2 vmax : Float) (sw : Swarm Float) (g : Part Float)
     (xs' : List (Part Float)) (vs' : List (List Float)) : Bool × String :=
   let n := sw.xs.length
   if xs'.length != n || vs'.length != n then (false, "count") else
-  let rows := List.zip (zip3 sw.xs sw.vs sw.pbest) (zip3 xs' vs' draws)
-  let bad := rows.filterMap fun ((x, v, p), (x', v', rs)) =>
+  let rows := List.zip (zip3 sw.xs sw.vs sw.pbest) (List.zip xs' vs')
+  let bad := rows.filterMap fun ((x, v, p), (x', v')) =>
     if x'.pos.length != x.pos.length || v'.length != v.length then some "count" else
-    let comps := List.zip (zip3 v x.pos p.pos) (List.zip (zip3 v' x'.pos g.pos) rs)
-    comps.findSome? fun ((v, x, xp), ((v', x', xg), (r1, r2))) =>
+    let comps := List.zip (zip3 v x.pos p.pos) (zip3 v' x'.pos g.pos)
+    comps.findSome? fun ((v, x, xp), (v', x', xg)) =>
       if !(v'.abs ≤ vmax) then some "clamp"
       else if !(close 4e-16 x' (x + v') (max x.abs (max v'.abs x'.abs))) then some "motion"
-      else
-        let t1 := w * v
-        let t2 := c1 * r1 * (xp - x)
-        let t3 := c2 * r2 * (xg - x)
-        let want := clamp (-vmax) vmax (t1 + t2 + t3)
-        if !(close 1e-9 v' want (t1.abs + t2.abs + t3.abs)) then some "formula" else none
+      else if c1 * (xp - x) == 0.0 && c2 * (xg - x) == 0.0 &&
+          !(close 1e-9 v' (clamp (-vmax) vmax (w * v)) (w * v).abs) then some "weight"
+      else none
   match bad with
   | c :: _ => (false, c)
   | [] => (true, "-")
+
+/-- Correspondence of a successful velocity update, insensitive to which of the two consumed draws
+feeds which term and to the association of the sum (relative tolerance 1e-9). -/
+def velAgreeOk (w c1 c2 vmax : Float) (sw : Swarm Float) (g : Part Float) (draws : List (List (Float × Float)))
+    (xs' : List (Part Float)) (vs' : List (List Float)) : Bool :=
+  let n := sw.xs.length
+  xs'.length == n && vs'.length == n && xs'.all (fun x => !x.ev) &&
+  (List.zip (zip3 sw.xs sw.vs sw.pbest) (zip3 xs' vs' draws)).all fun ((x, v, p), (x', v', rs)) =>
+    x'.pos.length == x.pos.length && v'.length == v.length &&
+    -- coordinates beyond the velocity's length are only transported
+    ((x'.pos.drop v.length).zip (x.pos.drop v.length)).all (fun (a, b) => a == b) &&
+    (List.zip (zip3 v x.pos p.pos) (List.zip (zip3 v' x'.pos g.pos) rs)).all
+      fun ((v, x, xp), ((v', x', xg), (r1, r2))) =>
+        let t1 := w * v
+        let a := c1 * (xp - x)
+        let b := c2 * (xg - x)
+        let scale := t1.abs + a.abs + b.abs
+        let want1 := clamp (-vmax) vmax (t1 + a * r1 + b * r2)
+        let want2 := clamp (-vmax) vmax (t1 + a * r2 + b * r1)
+        (close 1e-9 v' want1 scale || close 1e-9 v' want2 scale) &&
+        close 1e-9 x' (x + v') (x.abs + v'.abs)
 
 def allFinite (sw : Swarm Float) (g : Part Float) : Bool :=
   sw.xs.all (fun x => x.pos.all Float.isFinite) && sw.vs.all (fun v => v.all Float.isFinite) &&
@@ -100,7 +122,13 @@ def velCase (args : List Sexp) (implOut : Sexp) : Option Verdict := do
     let countOk := if ms == .ok then d.length == need else true
     let model := Sexp.list [statusS ms, partsS "xs" msw.xs, vsS msw.vs]
     let implCore := Sexp.list [.atom status, xsS, vsS']
-    let agree := (if ms == .panic then status == "panic" else Sexp.beq model implCore) && mapped && legal && countOk
+    let xsOut := (Sexp.tagged? "xs" xsS).bind (·.mapM part?)
+    let vsOut := (Sexp.tagged? "vs" vsS').bind (·.mapM floats?)
+    let agreeState := match ms, gbest, xsOut, vsOut with
+      | .panic, _, _, _ => status == "panic"
+      | .ok, some g, some xs', some vs' => status == "ok" && velAgreeOk w c1 c2 vmax sw g draws xs' vs'
+      | _, _, _, _ => Sexp.beq model implCore   -- Err: the state is only transported
+    let agree := agreeState && mapped && legal && countOk
     let dims := vs.all (fun v => v.length == (vs.headD []).length) && xs.all (fun x => x.pos.length == (vs.headD []).length) &&
       pbest.all (fun x => x.pos.length == (vs.headD []).length)
     let (holds, cls) := match gbest with
@@ -109,7 +137,7 @@ def velCase (args : List Sexp) (implOut : Sexp) : Option Verdict := do
             vmax > 0.0 && allFinite sw g && w.isFinite && c1.isFinite && c2.isFinite then
           if status != "ok" then (false, status) else
           match (Sexp.tagged? "xs" xsS).bind (·.mapM part?), (Sexp.tagged? "vs" vsS').bind (·.mapM floats?) with
-          | some xs', some vs' => velHolds w c1 c2 vmax sw g draws xs' vs'
+          | some xs', some vs' => velHolds w c1 c2 vmax sw g xs' vs'
           | _, _ => (false, "unreadable")
         else (true, "-")
       | none => (true, "-")
@@ -227,7 +255,7 @@ def linearCase (args : List Sexp) (implOut : Sexp) : Option Verdict := do
       | some w => close 1e-12 w want (start.abs + stop.abs)
       | none => false
     | _ => false
-  pure { agree := Sexp.beq model implOut, holds, cls := if holds then "-" else "inertia", model }
+  pure { agree := holds, holds, cls := if holds then "-" else "inertia", model }
 
 /-- One observed step of a `real_pso` run. -/
 def stepOk (start stop : Float) (st : Sexp) : Bool × String :=
@@ -288,7 +316,7 @@ def handle (input implOut : Sexp) : Option Verdict := do
     else if kind == "gbest" then gbestCase args implOut
     else if kind == "swarm" then swarmCase args implOut
     else if kind == "linear" then linearCase args implOut
-    else if kind == "run" then runCase args implOut
+    else if kind == "run" || kind == "runc" then runCase args implOut
     else none
   | _ => none
 
